@@ -503,3 +503,821 @@ Proof.
     repeat split; reflexivity.
   - rewrite (mem_getinfo_bad _ _ s R). discriminate.
 Qed.
+
+(* ================================================================== *)
+(* C05: move, copy and removetree never destroy unrelated data         *)
+(* ================================================================== *)
+
+(* ---- files_of versus lookup ---- *)
+Definition files_ents (l : list (str * node)) : list (list str * bytes) :=
+  flat_map (fun kn => map (fun pb => (fst kn :: fst pb, snd pb)) (files_of (snd kn))) l.
+
+Lemma files_of_dir ents m : files_of (Dir ents m) = files_ents ents.
+Proof.
+  induction ents as [|[k n] r IH]; [reflexivity|].
+  change (files_of (Dir ((k, n) :: r) m))
+    with (map (fun pb => (k :: fst pb, snd pb)) (files_of n) ++ files_of (Dir r m)).
+  now rewrite IH.
+Qed.
+
+Lemma In_assoc_NoDup {A} k (v : A) l : NoDup (keys l) -> In (k, v) l -> assoc k l = Some v.
+Proof.
+  induction l as [|[k' v'] r IH]; simpl; intros N H; [contradiction|].
+  inversion N as [|? ? Hn Nr]; subst. destruct H as [H|H].
+  - inversion H; subst. now rewrite str_eqb_refl.
+  - destruct (str_eqb k k') eqn:E.
+    + apply str_eqb_eq in E. subst k'. exfalso. apply Hn.
+      change k with (fst (k, v)). now apply in_map.
+    + now apply IH.
+Qed.
+
+Lemma files_of_lookup : forall t, wf_node t ->
+  forall p d, In (p, d) (files_of t) -> exists m, lookup t p = Some (File d m).
+Proof.
+  induction t as [d0 m0|ents m0 IH] using node_ind'; intros W p d H.
+  - simpl in H. destruct H as [H|[]]. inversion H; subst. now exists m0.
+  - rewrite files_of_dir in H. unfold files_ents in H.
+    apply in_flat_map in H as [[k n] [Hin H]]. apply in_map_iff in H as [[p' d'] [E H]].
+    simpl in E. inversion E; subst. clear E.
+    pose proof W as W0. simpl in W. destruct W as [N _].
+    pose proof (In_assoc_NoDup _ _ _ N Hin) as Ha.
+    rewrite Forall_forall in IH. specialize (IH _ Hin). simpl in IH.
+    destruct (IH (wf_assoc _ _ _ _ W0 Ha) _ _ H) as [m Hm].
+    exists m. simpl. now rewrite Ha.
+Qed.
+
+Lemma has_file_lookup t p d m : lookup t p = Some (File d m) -> has_file t p d = true.
+Proof. intro H. unfold has_file, file_at. rewrite H. apply str_eqb_refl. Qed.
+
+Lemma all_files_kept_intro t t' ex : wf_node t ->
+  (forall p d m, lookup t p = Some (File d m) -> ex p = true \/ has_file t' p d = true) ->
+  all_files_kept t t' ex = true.
+Proof.
+  intros W H. unfold all_files_kept. apply forallb_forall. intros [p d] Hin.
+  destruct (files_of_lookup t W p d Hin) as [m Hm]. simpl.
+  apply orb_true_iff. eapply H; eauto.
+Qed.
+
+Lemma kept_same t ex : wf_node t -> all_files_kept t t ex = true.
+Proof.
+  intro W. apply all_files_kept_intro; [assumption|]. intros p d m H. right.
+  eapply has_file_lookup; eauto.
+Qed.
+
+Lemma preserved_noop t o : wf t -> preserved t t o false = true.
+Proof. intros [_ W]. unfold preserved. now rewrite kept_same. Qed.
+
+(* ---- lookup of a file after del / put ---- *)
+Lemma assoc_del_other {A} k k' (l : list (str * A)) : k' <> k -> assoc k' (assoc_del k l) = assoc k' l.
+Proof.
+  intro H. induction l as [|[k2 v2] r IH]; simpl; [reflexivity|].
+  destruct (str_eqb k k2) eqn:E.
+  - apply str_eqb_eq in E. subst k2. apply str_eqb_neq in H. now rewrite H.
+  - simpl. now rewrite IH.
+Qed.
+
+Lemma lookup_del_file a : forall t p d m,
+  lookup t p = Some (File d m) -> list_prefix a p = false ->
+  lookup (del t a) p = Some (File d m).
+Proof.
+  induction a as [|c rest IH]; intros t p d m Hp Hn; [discriminate|].
+  destruct t as [d0 m0|ents m0]; [exact Hp|].
+  destruct p as [|x p'].
+  - simpl in Hp. discriminate.
+  - simpl in Hp. destruct (assoc x ents) as [ch|] eqn:Ex; [|discriminate].
+    simpl in Hn.
+    destruct rest as [|c2 rest2].
+    + simpl del. simpl. rewrite andb_true_r in Hn. apply str_eqb_neq in Hn.
+      rewrite assoc_del_other by congruence. now rewrite Ex.
+    + remember (c2 :: rest2) as rest eqn:Er.
+      assert (Hne : rest <> []) by (subst; discriminate).
+      rewrite del_cons_ne by assumption.
+      destruct (assoc c ents) as [ch2|] eqn:Ec.
+      * destruct (str_eqb c x) eqn:Ecx.
+        -- apply str_eqb_eq in Ecx. subst x. rewrite Ex in Ec. inversion Ec; subst ch2.
+           simpl. rewrite assoc_set_same. apply IH; assumption.
+        -- apply str_eqb_neq in Ecx. simpl. rewrite assoc_set_other by congruence.
+           now rewrite Ex.
+      * simpl. now rewrite Ex.
+Qed.
+
+Lemma file_no_prefix t a p d m d' m' :
+  lookup t a = Some (File d m) -> lookup t p = Some (File d' m') -> a <> p ->
+  list_prefix a p = false.
+Proof.
+  intros Ha Hp Hne. destruct (list_prefix a p) eqn:E; [|reflexivity].
+  rewrite list_prefix_cprefix in E. apply cprefix_app in E as [r ->].
+  destruct r as [|x r]; [now rewrite app_nil_r in Hne|].
+  rewrite lookup_app, Ha in Hp. discriminate.
+Qed.
+
+Lemma status_isfile t p : status_of t p = IsFile -> exists d m, lookup t p = Some (File d m).
+Proof.
+  intro H. pose proof (exists_st_lookup p t) as E. rewrite H in E. simpl in E.
+  destruct (lookup t p) as [n|] eqn:L; [|discriminate].
+  rewrite (status_lookup_some _ _ _ L) in H. destruct n; [eauto|discriminate].
+Qed.
+
+Lemma status_isdir t p : status_of t p = IsDir -> exists e m, lookup t p = Some (Dir e m).
+Proof.
+  intro H. pose proof (exists_st_lookup p t) as E. rewrite H in E. simpl in E.
+  destruct (lookup t p) as [n|] eqn:L; [|discriminate].
+  rewrite (status_lookup_some _ _ _ L) in H. destruct n; [discriminate|eauto].
+Qed.
+
+Lemma rp_inl p cs : rpath p = inl cs -> rp p = Some cs.
+Proof. intro H. unfold rp. now rewrite H. Qed.
+
+(* what an empty set of transfer errors means *)
+Lemma transfer_ok t a b o : wf t -> transfer_errors t a b o = [] ->
+  (exists data mt, lookup t a = Some (File data mt)) /\
+  (lookup t b = None \/ (o = true /\ exists d2 m2, lookup t b = Some (File d2 m2))) /\
+  (exists dd dc ents m, b = dd ++ [dc] /\ lookup t dd = Some (Dir ents m)).
+Proof.
+  intros W H.
+  assert (Hroot : status_of t [] = IsDir) by (destruct W as [Wd _]; simpl; now rewrite Wd).
+  destruct (list_snoc_case b) as [->|[dd [dc ->]]].
+  { unfold transfer_errors in H. rewrite Hroot in H.
+    apply app_eq_nil in H as [_ H]. apply app_eq_nil in H as [_ H]. discriminate. }
+  rewrite transfer_errors_snoc in H.
+  apply app_eq_nil in H as [H1 H]. apply app_eq_nil in H as [H2 H].
+  apply app_eq_nil in H as [H3 H4].
+  split.
+  { destruct (status_of t a) eqn:Sa; try discriminate. now apply status_isfile. }
+  pview t dd dc.
+  - rewrite Hsc, Hs in H4. discriminate.
+  - rewrite Hsc, Hs in H4. discriminate.
+  - rewrite Hsc, Hs in H4. discriminate.
+  - split; [now left|]. eauto 6.
+  - rewrite Hsc in H2, H3. destruct n as [d2 m2|e2 m2]; simpl in H2, H3; [|discriminate].
+    destruct o; [|discriminate]. split; [|eauto 6]. right. eauto.
+Qed.
+
+Definition ok_res (r : rres) : bool := match r with ROk _ => true | _ => false end.
+
+Lemma pres_move s d a b o pt t t' :
+  wf t -> rpath s = inl a -> rpath d = inl b ->
+  rs_tree (ref_move t a b o pt) = Some t' ->
+  preserved t t' (OMove s d o pt) (ok_res (rs_res (ref_move t a b o pt))) = true.
+Proof.
+  intros W Ra Rb. unfold ref_move.
+  destruct (transfer_errors t a b o) as [|e0 es] eqn:TE.
+  2:{ simpl. intro H. inversion H; subst. now apply preserved_noop. }
+  destruct (transfer_ok t a b o W TE) as ((data & mt & La) & Lb & (dd & dc & ents & m & Eb & Ld)).
+  pose proof W as [_ Wn].
+  destruct (path_eqb a b) eqn:E.
+  - simpl. intro H. inversion H; subst t'. unfold preserved. rewrite kept_same by assumption.
+    simpl. rewrite (rp_inl _ _ Ra), (rp_inl _ _ Rb). unfold file_at. rewrite La.
+    apply path_eqb_eq in E. rewrite <- E. rewrite (has_file_lookup _ _ _ _ La). reflexivity.
+  - rewrite La. simpl. intro H. inversion H; subst t'. clear H.
+    assert (Hab : a <> b) by (intro X; subst; now rewrite path_eqb_refl in E).
+    assert (Lb' : lookup t b = None \/ exists d2 m2, lookup t b = Some (File d2 m2))
+      by (destruct Lb as [Lb|[_ Lb]]; auto).
+    assert (Pa : lookup (put t b (File data mt)) a = Some (File data mt))
+      by (apply lookup_put_file; auto).
+    assert (Pb : lookup (put t b (File data mt)) b = Some (File data mt))
+      by (subst b; eapply lookup_put_same; eauto).
+    unfold preserved. apply andb_true_iff. split.
+    + apply all_files_kept_intro; [assumption|]. intros p d0 m0 Hp.
+      simpl. rewrite (rp_inl _ _ Ra), (rp_inl _ _ Rb).
+      destruct (path_eqb p a) eqn:Epa; [now left|].
+      destruct (path_eqb p b) eqn:Epb.
+      * apply path_eqb_eq in Epb. subst p. left.
+        destruct Lb as [Lb|[-> _]]; [congruence|reflexivity].
+      * right. assert (p <> a) by (intro X; subst; now rewrite path_eqb_refl in Epa).
+        assert (p <> b) by (intro X; subst; now rewrite path_eqb_refl in Epb).
+        assert (Pp : lookup (put t b (File data mt)) p = Some (File d0 m0))
+          by (apply lookup_put_file; auto).
+        eapply has_file_lookup. apply lookup_del_file; [exact Pp|].
+        eapply file_no_prefix; eauto.
+    + simpl. rewrite (rp_inl _ _ Ra), (rp_inl _ _ Rb). unfold file_at. rewrite La.
+      rewrite andb_true_r. eapply has_file_lookup. apply lookup_del_file; [exact Pb|].
+      eapply file_no_prefix; eauto.
+Qed.
+
+Lemma pres_copy s d a b o pt t t' :
+  wf t -> rpath s = inl a -> rpath d = inl b ->
+  rs_tree (ref_copy t a b o pt) = Some t' ->
+  preserved t t' (OCopy s d o pt) (ok_res (rs_res (ref_copy t a b o pt))) = true.
+Proof.
+  intros W Ra Rb. unfold ref_copy.
+  destruct (transfer_errors t a b o ++ (if path_eqb a b then [IllegalDestination] else []))
+    as [|e0 es] eqn:TE0.
+  2:{ simpl. intro H. inversion H; subst. now apply preserved_noop. }
+  apply app_eq_nil in TE0 as [TE E].
+  destruct (path_eqb a b) eqn:E'; [discriminate|]. clear E.
+  destruct (transfer_ok t a b o W TE) as ((data & mt & La) & Lb & (dd & dc & ents & m & Eb & Ld)).
+  pose proof W as [_ Wn].
+  rewrite La. simpl. intro H. inversion H; subst t'. clear H.
+  set (F := File data (if pt then mt
+                      else match data with
+                           | [] => match lookup t b with Some (File _ m1) => m1 | _ => None end
+                           | _ :: _ => None
+                           end)).
+  assert (Hab : a <> b) by (intro X; subst; now rewrite path_eqb_refl in E').
+  assert (Lb' : lookup t b = None \/ exists d2 m2, lookup t b = Some (File d2 m2))
+    by (destruct Lb as [Lb|[_ Lb]]; auto).
+  assert (Pa : lookup (put t b F) a = Some (File data mt)) by (apply lookup_put_file; auto).
+  assert (Pb : lookup (put t b F) b = Some F) by (subst b; eapply lookup_put_same; eauto).
+  unfold preserved. apply andb_true_iff. split.
+  - apply all_files_kept_intro; [assumption|]. intros p d0 m0 Hp.
+    simpl. rewrite (rp_inl _ _ Ra), (rp_inl _ _ Rb).
+    destruct (path_eqb p b) eqn:Epb.
+    + apply path_eqb_eq in Epb. subst p. left.
+      destruct Lb as [Lb|[-> _]]; [congruence|reflexivity].
+    + right. assert (p <> b) by (intro X; subst; now rewrite path_eqb_refl in Epb).
+      eapply has_file_lookup. apply lookup_put_file; eauto.
+  - simpl. rewrite (rp_inl _ _ Ra), (rp_inl _ _ Rb). unfold file_at. rewrite La.
+    rewrite (has_file_lookup _ _ _ _ Pa). rewrite andb_true_r.
+    unfold F in Pb. eapply has_file_lookup; eauto.
+Qed.
+
+Lemma pres_removetree p cs t t' :
+  wf t -> rpath p = inl cs ->
+  rs_tree (ref_removetree t cs) = Some t' ->
+  preserved t t' (ORemovetree p) (ok_res (rs_res (ref_removetree t cs))) = true.
+Proof.
+  intros W R. pose proof W as [_ Wn]. unfold ref_removetree.
+  assert (Hdel : preserved t (del t cs) (ORemovetree p) true = true).
+  { unfold preserved. simpl. rewrite (rp_inl _ _ R), andb_true_r.
+    apply all_files_kept_intro; [assumption|]. intros q d0 m0 Hq.
+    destruct (list_prefix cs q) eqn:E; [now left|]. right.
+    eapply has_file_lookup. apply lookup_del_file; eauto. }
+  destruct cs as [|c cs0].
+  - simpl. intro H. inversion H; subst t'. unfold preserved. simpl.
+    rewrite (rp_inl _ _ R), andb_true_r.
+    apply all_files_kept_intro; [assumption|]. intros q d0 m0 Hq. now left.
+  - destruct (status_of t (c :: cs0)); simpl; intro H; inversion H; subst t';
+      try (now apply preserved_noop). exact Hdel.
+Qed.
+
+Definition is_mcr (o : op) : bool :=
+  match o with OMove _ _ _ _ | OCopy _ _ _ _ | ORemovetree _ => true | _ => false end.
+
+(* T15 *)
+Theorem ref_preserved_move_copy_removetree : forall o t t',
+  wf t -> is_mcr o = true -> rs_tree (ref_run o t) = Some t' ->
+  preserved t t' o (match rs_res (ref_run o t) with ROk _ => true | _ => false end) = true.
+Proof.
+  intros o t t' W M. change (match rs_res (ref_run o t) with ROk _ => true | _ => false end)
+    with (ok_res (rs_res (ref_run o t))).
+  destruct o; try discriminate M; cbn [ref_run]; unfold with1, with2.
+  - destruct (rpath p) as [cs|adm] eqn:R.
+    + now apply pres_removetree.
+    + simpl. intro H. inversion H; subst. now apply preserved_noop.
+  - destruct (rpath s) as [a|e1] eqn:Ra; destruct (rpath d) as [b|e2] eqn:Rb;
+      try (simpl; intro H; inversion H; subst; now apply preserved_noop).
+    now apply pres_move.
+  - destruct (rpath s) as [a|e1] eqn:Ra; destruct (rpath d) as [b|e2] eqn:Rb;
+      try (simpl; intro H; inversion H; subst; now apply preserved_noop).
+    now apply pres_copy.
+Qed.
+
+(* ---- the MemoryFS model reaches EXACTLY the reference tree for move / copy / removetree.
+   The scripts below are those of step_removetree / step_move / step_copy in
+   FS/RefineProofs.v, replayed against a strict notion of agreement (tree equality
+   instead of equality of canonical forms). ---- *)
+Definition sagree (obs : node * outcome value) (r : rstep) : Prop :=
+  res_agree (snd obs) (rs_res r) = true /\ rs_tree r = Some (fst obs).
+
+Definition sstep_ok (o : op) (s : node) : Prop :=
+  sagree (mem_run o s) (ref_run o s) /\ wf (fst (mem_run o s)).
+
+Lemma sfin_ok s' (v w : value) :
+  wf s' -> value_eqb v w = true ->
+  sagree (s', Ok v) {| rs_tree := Some s'; rs_res := ROk w |} /\ wf (fst (s', Ok v)).
+Proof. intros W E. split; [|exact W]. split; [exact E|reflexivity]. Qed.
+
+Lemma sfin_err s e adm :
+  wf s -> existsb (ecls_eqb e) adm = true ->
+  sagree (s, @Err value e) {| rs_tree := Some s; rs_res := RFail adm |}
+  /\ wf (fst (s, @Err value e)).
+Proof. intros W E. split; [|exact W]. split; [exact E|reflexivity]. Qed.
+
+Ltac sfin_ok := unfold same; apply sfin_ok; [auto | apply value_eqb_refl].
+Ltac sfin_err := unfold fail, same; apply sfin_err; [assumption | reflexivity].
+Ltac sfin_bad R := unfold fail, same; apply sfin_err; [assumption | exact (bad_err_in _ _ R)].
+
+Lemma sstep_removetree p s : wf s -> sstep_ok (ORemovetree p) s.
+Proof.
+  intro W. unfold sstep_ok. cbn [mem_run ref_run]. unfold with1.
+  destruct (rpath p) as [cs|adm] eqn:R; mstep.
+  2:{ rewrite (mem_removetree_bad _ _ s R). mstep. sfin_bad R. }
+  destruct (list_snoc_case cs) as [->|[d [c ->]]].
+  - rewrite (mem_removetree_root _ s R). mstep. unfold ref_removetree.
+    apply sfin_ok; [|reflexivity]. now apply wf_root_clear.
+  - rewrite (mem_removetree_snoc _ _ _ s R), ref_removetree_snoc.
+    pview s d c; rewrite ?Hl, ?Hs, ?Hsc, ?Ha; mstep; try sfin_err.
+    destruct n; cbn [is_dir]; mstep; [sfin_err|].
+    apply sfin_ok; [|reflexivity]. now apply wf_del_any.
+Qed.
+
+Lemma sfin_move_err s cs cd o pt e :
+  wf s -> existsb (ecls_eqb e) (transfer_errors s cs cd o) = true ->
+  sagree (s, @Err value e) (ref_move s cs cd o pt) /\ wf (fst (s, @Err value e)).
+Proof.
+  intros W H. unfold ref_move. destruct (transfer_errors s cs cd o) as [|x l]; [discriminate|].
+  unfold fail, same. now apply sfin_err.
+Qed.
+
+Lemma sstep_move src dst o pt s : wf s -> sstep_ok (OMove src dst o pt) s.
+Proof.
+  intro W. unfold sstep_ok. cbn [mem_run ref_run]. mstep.
+  destruct (rpath src) as [cs|e1] eqn:R1.
+  2:{ destruct (with2_bad1 s src dst (fun a b => ref_move s a b o pt) e1 R1) as (adm & Hr & He).
+      rewrite Hr. unfold mem_move. mstep. rewrite (validate_inr _ _ s R1). mstep.
+      unfold fail. apply sfin_err; assumption. }
+  destruct (rpath dst) as [cd|e2] eqn:R2.
+  2:{ unfold with2. rewrite R1, R2. unfold mem_move. mstep.
+      rewrite (validate_inl _ _ s R1). mstep. rewrite (validate_inr _ _ s R2). mstep. sfin_bad R2. }
+  unfold with2. rewrite R1, R2.
+  pose proof (rpath_good _ _ R1) as G1. pose proof (rpath_good _ _ R2) as G2.
+  unfold mem_move. mstep. rewrite (validate_inl _ _ s R1). mstep.
+  rewrite (validate_inl _ _ s R2). mstep.
+  destruct (list_snoc_case cs) as [->|[sd [sc ->]]].
+  { rewrite to_path_root, psplit_root. destruct (psplit (to_path true cd)) as [dd0 dn0]. mstep.
+    apply sfin_move_err; [assumption|]. unfold transfer_errors. cbn [status_of].
+    destruct W as [Wd Wn]. rewrite Wd. reflexivity. }
+  destruct (good_snoc _ _ G1) as [Gsd Gsc].
+  rewrite (psplit_snoc true sd sc Gsd Gsc).
+  destruct (list_snoc_case cd) as [->|[dd [dc ->]]].
+  - (* destination is the root *)
+    rewrite to_path_root, psplit_root. mstep. rewrite (good_not_empty _ Gsc).
+    rewrite get_dir_entry_nf by assumption. mstep.
+    pview s sd sc; rewrite ?Hl, ?Ha; mstep;
+      try (apply sfin_move_err; [assumption|]; unfold transfer_errors; rewrite Hsc; reflexivity).
+    destruct n as [sdata smt|e3 m3]; cbn [is_dir] in Hsc; mstep;
+      try (apply sfin_move_err; [assumption|]; unfold transfer_errors; rewrite Hsc; reflexivity).
+    destruct (get_dir_entry_root' s W) as (rents & rm & Es & Wr & Hg).
+    rewrite Hg. mstep. rewrite (wf_assoc_nil _ _ Wr), andb_false_r. mstep.
+    rewrite pjoin_root. mstep. rewrite Hg. mstep.
+    assert (Hroot : status_of s [] = IsDir) by (destruct W as [Wd _]; simpl; now rewrite Wd).
+    destruct o; cbn [negb]; mstep;
+      (apply sfin_move_err; [assumption|]; unfold transfer_errors; rewrite Hsc, Hroot; reflexivity).
+  - (* destination has a name *)
+    destruct (good_snoc _ _ G2) as [Gdd Gdc].
+    rewrite (psplit_snoc true dd dc Gdd Gdc). mstep. rewrite (good_not_empty _ Gsc).
+    rewrite (pjoin_two_nf true dd dc Gdd Gdc).
+    rewrite !iteratepath_nf by assumption.
+    rewrite get_dir_entry_nf by assumption. mstep.
+    pview s sd sc; rewrite ?Hl, ?Ha; mstep;
+      try (apply sfin_move_err; [assumption|]; unfold transfer_errors; rewrite Hsc; reflexivity).
+    destruct n as [sdata smt|e3 m3]; cbn [is_dir] in Hsc; mstep;
+      try (apply sfin_move_err; [assumption|]; unfold transfer_errors; rewrite Hsc; reflexivity).
+    rewrite (to_path_eqb sd dd Gsd Gdd), <- path_eqb_snoc.
+    rewrite get_dir_entry_nf by assumption. mstep.
+    pview2 s dd dc; rewrite ?Dl, ?Da; mstep;
+      try (apply sfin_move_err; [assumption|]; rewrite transfer_errors_snoc, Hsc, Dsc, Ds; reflexivity).
+    + (* destination missing, parent is a directory *)
+      rewrite andb_false_r. mstep. rewrite get_dir_entry_nf by assumption. mstep. rewrite Dlc. mstep.
+      destruct (path_eqb (sd ++ [sc]) (dd ++ [dc])) eqn:E.
+      { apply path_eqb_eq in E. rewrite E in Hlc. congruence. }
+      mstep. unfold ref_move. rewrite transfer_errors_snoc, Hsc, Dsc, Ds.
+      cbn [exists_st andb app parent_errors].
+      rewrite E, Hlc. apply sfin_ok; [|reflexivity].
+      apply wf_del_any. apply wf_put_file; auto using snoc_ne'.
+    + (* destination exists *)
+      destruct o; cbn [negb andb]; mstep.
+      * rewrite get_dir_entry_nf by assumption. mstep. rewrite Dlc. mstep.
+        destruct n2 as [ddata dmt|e4 m4]; cbn [is_dir] in Dsc; mstep.
+        -- destruct (path_eqb (sd ++ [sc]) (dd ++ [dc])) eqn:E; mstep;
+             unfold ref_move; rewrite transfer_errors_snoc, Hsc, Dsc;
+             cbn [exists_st andb negb app]; rewrite E.
+           ++ sfin_ok.
+           ++ rewrite Hlc. apply sfin_ok; [|reflexivity].
+              apply wf_del_any. apply wf_put_file; auto using snoc_ne'.
+        -- apply sfin_move_err; [assumption|]. rewrite transfer_errors_snoc, Hsc, Dsc. reflexivity.
+      * apply sfin_move_err; [assumption|]. rewrite transfer_errors_snoc, Hsc, Dsc.
+        destruct (is_dir n2); reflexivity.
+Qed.
+
+Lemma sfin_copy_err s cs cd o pt e :
+  wf s ->
+  existsb (ecls_eqb e)
+          (transfer_errors s cs cd o ++ (if path_eqb cs cd then [IllegalDestination] else [])) = true ->
+  sagree (s, @Err value e) (ref_copy s cs cd o pt) /\ wf (fst (s, @Err value e)).
+Proof.
+  intros W H. unfold ref_copy.
+  destruct (transfer_errors s cs cd o ++ (if path_eqb cs cd then [IllegalDestination] else []))
+    as [|x l]; [discriminate|].
+  unfold fail, same. now apply sfin_err.
+Qed.
+
+Lemma sfin_copy_err' s cs cd o pt e :
+  wf s -> existsb (ecls_eqb e) (transfer_errors s cs cd o) = true ->
+  sagree (s, @Err value e) (ref_copy s cs cd o pt) /\ wf (fst (s, @Err value e)).
+Proof.
+  intros W H. apply sfin_copy_err; [assumption|]. rewrite existsb_app, H. reflexivity.
+Qed.
+
+Lemma scopy_tail_ok s cs cd o pt :
+  wf s -> vp cs -> vp cd -> (o = true \/ lookup s cd = None) ->
+  sagree (vmap (fun _ => VUnit) (copy_tail (to_path true cs) (to_path true cd) pt) s)
+        (ref_copy s cs cd o pt)
+  /\ wf (fst (vmap (fun _ => VUnit) (copy_tail (to_path true cs) (to_path true cd) pt) s)).
+Proof.
+  intros W V1 V2 Ho.
+  pose proof (rpath_nf _ V1) as Q1. pose proof (rpath_nf _ V2) as Q2.
+  destruct V1 as [G1 N1]. destruct V2 as [G2 N2].
+  assert (Hroot : status_of s [] = IsDir) by (destruct W as [Wd _]; simpl; now rewrite Wd).
+  unfold copy_tail. rewrite (to_path_eqb cs cd G1 G2).
+  destruct (path_eqb cs cd) eqn:E; mstep.
+  { apply sfin_copy_err; [assumption|]. rewrite E, existsb_app. apply orb_true_iff. now right. }
+  destruct (list_snoc_case cs) as [->|[sd [sc ->]]].
+  { rewrite (mem_openread_root _ s Q1). mstep.
+    apply sfin_copy_err'; [assumption|]. unfold transfer_errors. rewrite Hroot. reflexivity. }
+  rewrite (mem_openread_snoc _ _ _ s Q1).
+  pview s sd sc; rewrite ?Hl, ?Ha; mstep;
+    try (apply sfin_copy_err'; [assumption|]; unfold transfer_errors; rewrite Hsc; reflexivity).
+  destruct n as [data mt|e3 m3]; cbn [is_dir] in Hsc; mstep;
+    try (apply sfin_copy_err'; [assumption|]; unfold transfer_errors; rewrite Hsc; reflexivity).
+  unfold b_upload. cbn [l_openwrite mem_low].
+  set (wr := match data with [] => None | _ :: _ => Some data end).
+  assert (Hw : wr = None \/ m_writing m_wb = true) by (right; reflexivity).
+  assert (Hwr : match wr with Some x => x | None => [] end = data) by (subst wr; destruct data; reflexivity).
+  destruct (list_snoc_case cd) as [->|[dd [dc ->]]].
+  { rewrite (mem_openwrite_root _ _ wr s Q2 m_wb_valid). mstep.
+    apply sfin_copy_err'; [assumption|]. unfold transfer_errors. rewrite Hsc, Hroot.
+    destruct o; reflexivity. }
+  rewrite (mem_openwrite_snoc _ _ _ _ wr s Q2 m_wb_valid Hw).
+  change (m_create m_wb && m_exclusive m_wb) with false. change (m_create m_wb) with true.
+  (* the state after a successful upload, and the end of the call *)
+  assert (Hfin : forall dents dm2 X,
+             lookup s dd = Some (Dir dents dm2) ->
+             (lookup s (dd ++ [dc]) = None \/
+              exists d2 m2, lookup s (dd ++ [dc]) = Some (File d2 m2)) ->
+             transfer_errors s (sd ++ [sc]) (dd ++ [dc]) o = [] ->
+             X = match data, lookup s (dd ++ [dc]) with
+                 | [], Some (File _ m) => m
+                 | _, _ => None
+                 end ->
+             sagree
+               (let (s', o0) :=
+                  (if pt
+                   then b_copy_modified_time mem_low (to_path true (sd ++ [sc])) (to_path true (dd ++ [dc]))
+                   else fun s0 => (s0, Ok tt)) (put s (dd ++ [dc]) (File data X)) in
+                match o0 with
+                | Ok _ => (s', Ok VUnit)
+                | Err e => (s', Err e)
+                | Crash k => (s', Crash k)
+                end)
+               (ref_copy s (sd ++ [sc]) (dd ++ [dc]) o pt) /\
+             wf (fst
+               (let (s', o0) :=
+                  (if pt
+                   then b_copy_modified_time mem_low (to_path true (sd ++ [sc])) (to_path true (dd ++ [dc]))
+                   else fun s0 => (s0, Ok tt)) (put s (dd ++ [dc]) (File data X)) in
+                match o0 with
+                | Ok _ => (s', Ok VUnit)
+                | Err e => (s', Err e)
+                | Crash k => (s', Crash k)
+                end))).
+  { intros dents dm2 X Dl Hd Hte HX.
+    unfold ref_copy. rewrite Hte, E, Hlc. cbn [app].
+    destruct pt.
+    - unfold b_copy_modified_time. cbn [l_getinfo l_setinfo mem_low]. mstep.
+      rewrite (mem_getinfo_spec _ _ _ Q1).
+      rewrite (lookup_put_file _ _ _ _ _ _ Hlc) by
+          (auto; intro Heq; rewrite Heq, path_eqb_refl in E; discriminate).
+      mstep. cbn [i_mt to_info node_mt].
+      rewrite (mem_setinfo_spec _ _ _ _ Q2).
+      rewrite (lookup_put_same _ _ _ _ _ _ Dl). cbn [set_mt]. rewrite put_put.
+      apply sfin_ok; [|reflexivity]. apply wf_put_file; auto using snoc_ne'.
+    - subst X. apply sfin_ok; [|reflexivity]. apply wf_put_file; auto using snoc_ne'. }
+  pview2 s dd dc; rewrite ?Dl, ?Da; mstep;
+    try (apply sfin_copy_err'; [assumption|]; rewrite transfer_errors_snoc, Hsc, Dsc, Ds; reflexivity).
+  - (* new destination *)
+    rewrite Hwr. eapply Hfin; eauto.
+    + rewrite transfer_errors_snoc, Hsc, Dsc, Ds. reflexivity.
+    + rewrite Dlc. destruct data; reflexivity.
+  - (* existing destination *)
+    destruct Ho as [->|Ho]; [|congruence].
+    destruct n2 as [old dmt|e4 m4]; cbn [is_dir] in Dsc; mstep.
+    + unfold ow_state. change (m_truncate m_wb) with true. cbv iota.
+      assert (Hte : transfer_errors s (sd ++ [sc]) (dd ++ [dc]) true = [])
+        by (rewrite transfer_errors_snoc, Hsc, Dsc; reflexivity).
+      subst wr. destruct data as [|b0 data].
+      * eapply Hfin; eauto. now rewrite Dlc.
+      * eapply Hfin; eauto.
+    + apply sfin_copy_err'; [assumption|]. rewrite transfer_errors_snoc, Hsc, Dsc. reflexivity.
+Qed.
+
+Lemma sstep_copy src dst o pt s : wf s -> sstep_ok (OCopy src dst o pt) s.
+Proof.
+  intro W. unfold sstep_ok. cbn [mem_run ref_run]. unfold mem_copy. rewrite b_copy_unfold.
+  destruct (rpath src) as [cs|e1] eqn:R1.
+  2:{ destruct (with2_bad1 s src dst (fun a b => ref_copy s a b o pt) e1 R1) as (adm & Hr & He).
+      rewrite Hr. mstep. rewrite (validate_inr _ _ s R1). mstep.
+      unfold fail. apply sfin_err; assumption. }
+  destruct (rpath dst) as [cd|e2] eqn:R2.
+  2:{ unfold with2. rewrite R1, R2. mstep.
+      rewrite (validate_inl _ _ s R1). mstep. rewrite (validate_inr _ _ s R2). mstep. sfin_bad R2. }
+  unfold with2. rewrite R1, R2.
+  pose proof (rpath_vp _ _ R1) as V1. pose proof (rpath_vp _ _ R2) as V2.
+  rewrite vmap_mbind, (validate_inl _ _ s R1). cbv beta iota.
+  rewrite vmap_mbind, (validate_inl _ _ s R2). cbv beta iota.
+  rewrite vmap_mbind.
+  destruct o.
+  - unfold ret at 1. cbv beta iota.
+    apply (scopy_tail_ok s cs cd true pt W V1 V2). now left.
+  - rewrite (mem_exists_spec _ _ s (rpath_nf _ V2)). cbv beta iota.
+    destruct (lookup s cd) as [n|] eqn:L; cbv beta iota.
+    + mstep. apply sfin_copy_err'; [assumption|]. eapply te_dest_exists; eauto.
+    + apply (scopy_tail_ok s cs cd false pt W V1 V2). now right.
+Qed.
+
+Lemma sstep_mcr o s : wf s -> is_mcr o = true -> sstep_ok o s.
+Proof.
+  intros W M. destruct o; try discriminate M.
+  - now apply sstep_removetree.
+  - now apply sstep_move.
+  - now apply sstep_copy.
+Qed.
+
+Lemma is_mcr_covered o : is_mcr o = true -> covered o = true.
+Proof. destruct o; simpl; congruence. Qed.
+
+(* move / copy / removetree: the model tree IS the reference tree *)
+Theorem mem_tree_exact_move_copy_removetree : forall o s,
+  wf s -> is_mcr o = true -> rs_tree (ref_run o s) = Some (fst (mem_run o s)).
+Proof. intros o s W M. exact (proj2 (proj1 (sstep_mcr o s W M))). Qed.
+
+(* T16 *)
+Theorem mem_preserved_move_copy_removetree : forall o s,
+  wf s -> is_mcr o = true ->
+  preserved s (fst (mem_run o s)) o (is_ok (snd (mem_run o s))) = true.
+Proof.
+  intros o s W M. destruct (sstep_mcr o s W M) as [[A T] _].
+  pose proof (ref_preserved_move_copy_removetree o s _ W M T) as P.
+  pose proof (ref_covered_not_any o s (is_mcr_covered o M)) as NA.
+  replace (is_ok (snd (mem_run o s)))
+    with (match rs_res (ref_run o s) with ROk _ => true | _ => false end); [exact P|].
+  unfold res_agree in A.
+  destruct (snd (mem_run o s)) as [v|e|k]; destruct (rs_res (ref_run o s));
+    try discriminate A; try reflexivity; try congruence;
+    destruct k; discriminate A.
+Qed.
+
+(* ================================================================== *)
+(* C11 continued: movedir / copydir (calls outside [covered])          *)
+(* ================================================================== *)
+Lemma mbind_lift_ok {S A B} (x : A) (k : A -> M S B) : mbind (lift (Ok x)) k = k x.
+Proof. reflexivity. Qed.
+
+Lemma copy_dir_spelling copy src src' dst dst' pt a b :
+  rpath src = inl a -> rpath src' = inl a -> rpath dst = inl b -> rpath dst' = inl b ->
+  copy_dir mem_low copy src dst pt = copy_dir mem_low copy src' dst' pt.
+Proof.
+  intros Ra Ra' Rb Rb'.
+  pose proof (rpath_good _ _ Ra) as Ga. pose proof (rpath_good _ _ Rb) as Gb.
+  assert (Ea : rpath src = rpath src') by congruence.
+  assert (Eb : rpath dst = rpath dst') by congruence.
+  apply rpath_inl in Ra as [_ Ra]. apply rpath_inl in Ra' as [_ Ra'].
+  apply rpath_inl in Rb as [_ Rb]. apply rpath_inl in Rb' as [_ Rb'].
+  unfold copy_dir, copy_structure. cbn [l_validatepath mem_low].
+  rewrite !normpath_spec. unfold spec_normpath. rewrite Ra, Ra', Rb, Rb'.
+  rewrite !mbind_lift_ok. cbv zeta.
+  rewrite !abspath_nf_gen by assumption.
+  rewrite (validatepath_fun_spelling _ _ Ea), (validatepath_fun_spelling _ _ Eb).
+  reflexivity.
+Qed.
+
+Definition is_dirop (o : op) : bool :=
+  match o with OMovedir _ _ _ _ | OCopydir _ _ _ _ => true | _ => false end.
+
+Theorem mem_spelling_dirs_fun : forall o o',
+  same_call o o' -> is_dirop o = true -> mem_run o = mem_run o'.
+Proof.
+  intros o o' H C.
+  destruct o, o'; simpl in H; try contradiction; try discriminate C; split_and; subst.
+  - (* movedir *)
+    rename s0 into s', d0 into d', H into Hs, H0 into Hd.
+    cbn [mem_run]. f_equal.
+    pose proof (validatepath_fun_spelling _ _ Hs) as Vs.
+    pose proof (validatepath_fun_spelling _ _ Hd) as Vd.
+    destruct (rpath s) as [a|e1] eqn:Ra.
+    2:{ unfold mem_movedir. rewrite <- Vs.
+        rewrite (validatepath_fun_inr _ _ Ra). reflexivity. }
+    destruct (rpath d) as [b|e2] eqn:Rb.
+    2:{ unfold mem_movedir. rewrite <- Vs, <- Vd.
+        rewrite (validatepath_fun_inl _ _ Ra), (validatepath_fun_inr _ _ Rb). reflexivity. }
+    symmetry in Hs, Hd.
+    unfold mem_movedir, mem_base_movedir, b_movedir, move_dir, b_exists.
+    rewrite (copy_dir_spelling mem_copy s s' d d' _ a b Ra Hs Rb Hd).
+    cbn [l_validatepath l_getinfo l_makedir l_removetree mem_low].
+    unfold mem_makedir, mem_opendir, mem_getinfo, mem_removetree.
+    rewrite Vs, Vd.
+    reflexivity.
+  - (* copydir *)
+    rename s0 into s', d0 into d', H into Hs, H0 into Hd.
+    cbn [mem_run]. f_equal.
+    unfold mem_copydir, b_copydir. cbn [l_validatepath l_getinfo mem_low].
+    rewrite (validatepath_fun_spelling _ _ Hs), (validatepath_fun_spelling _ _ Hd).
+    reflexivity.
+Qed.
+
+Theorem mem_spelling_dirs : forall o o' s,
+  same_call o o' -> is_dirop o = true -> mem_run o s = mem_run o' s.
+Proof. intros o o' s H C. now rewrite (mem_spelling_dirs_fun o o' H C). Qed.
+
+(* T8, OMakedirs.  STATEMENT CHANGED: mem_spelling is FALSE for OMakedirs when same_call is
+   defined through rpath.  Counterexample (Eval vm_compute), with x=120, y=121, '/'=47, NUL=0,
+   '.'=46:   p1 = "x/y/\0/.."  and  p2 = "\0"  have rpath p1 = rpath p2 = inr [InvalidCharsInPath],
+   but  mem_run (OMakedirs p1 false) empty_dir = (Dir [("x", Dir [] None)] None, Err InvalidCharsInPath)
+   while mem_run (OMakedirs p2 false) empty_dir = (Dir [] None, Err InvalidCharsInPath):
+   FS.makedirs computes the intermediate directories from the raw path (no validatepath), creates
+   "/x", and only then fails on the NUL character -- a failed call that is not a no-op (so C06
+   also fails for makedirs; ref_run gives {| rs_tree := Some empty_dir; rs_res := RFail [ICP] |}).
+   The spelling theorem is therefore proved for the 23 covered calls (mem_spelling) and for
+   OMovedir / OCopydir (mem_spelling_dirs); OMakedirs restricted to rpath p = inl _ is left
+   (it needs recursepath (abspath p) as a function of rpath p; recursepath_spec has a side
+   condition for paths that resolve to the root). *)
+
+(* ================================================================== *)
+(* C10 continued: scandir versus getinfo                               *)
+(* ================================================================== *)
+
+(* T14.  STATEMENT CHANGED: [wf] guarantees that entry names are [good] but not that they are
+   free of NUL, and getinfo rejects NUL.  Counterexample (Eval vm_compute):
+   s = Dir [("\0", File [] None)] None is wf, mem_scandir "/" s = Ok [info "\0"],
+   pjoin ["/"; "\0"] = Ok "/\0", and mem_getinfo "/\0" s = Err InvalidCharsInPath.
+   Hence the extra hypothesis has_char Mem.nul (i_name i) = false (true in every state
+   reachable from the empty filesystem, since every created name comes from a validated path). *)
+Theorem q_scandir_getinfo : forall p s infos cs,
+  wf s -> mem_scandir p s = (s, Ok infos) -> rpath p = inl cs ->
+  forall i, In i infos -> has_char Mem.nul (i_name i) = false ->
+  exists q, pjoin [to_path true cs; i_name i] = Ok q /\ mem_getinfo q s = (s, Ok i).
+Proof.
+  intros p s infos cs W H R i Hi Hn.
+  rewrite (mem_scandir_spec _ _ s R) in H.
+  destruct (lookup s cs) as [[|ents m]|] eqn:L; try discriminate. inv H.
+  apply in_map_iff in Hi as [[k n] [E Hin]]. simpl in E. subst i. simpl in Hn.
+  destruct W as [_ W]. pose proof (wf_lookup _ _ _ W L) as Wd.
+  pose proof Wd as Wd0. simpl in Wd. destruct Wd as (N & G & _).
+  assert (Gk : good k).
+  { rewrite Forall_forall in G. apply G. change k with (fst (k, n)). now apply in_map. }
+  destruct (rpath_vp _ _ R) as [Gcs Ncs].
+  exists (to_path true (cs ++ [k])). split.
+  - simpl i_name. now apply pjoin_two_nf.
+  - assert (V : vp (cs ++ [k])).
+    { split; apply Forall_app; split; auto; constructor; auto; constructor. }
+    rewrite (mem_getinfo_spec _ _ s (rpath_nf _ V)).
+    rewrite lookup_snoc, L, (In_assoc_NoDup _ _ _ N Hin), last_last. reflexivity.
+Qed.
+
+(* ================================================================== *)
+(* C05 continued (T17, partial): movedir onto a destination that does  *)
+(* not exist, on the reference semantics                               *)
+(* ================================================================== *)
+Lemma prefix_app_cases a : forall b q,
+  list_prefix a (b ++ q) = true -> list_prefix a b = true \/ list_prefix b a = true.
+Proof.
+  induction a as [|x a IH]; intros b q H; [now left|].
+  destruct b as [|y b]; [now right|].
+  simpl in H. apply andb_true_iff in H as [H1 H2].
+  destruct (IH _ _ H2) as [H|H]; [left|right]; simpl; rewrite ?H1, ?H; auto.
+  rewrite str_eqb_sym, H1. reflexivity.
+Qed.
+
+Theorem ref_preserved_movedir_fresh : forall s d c pt a b t t',
+  wf t -> rpath s = inl a -> rpath d = inl b -> lookup t b = None ->
+  rs_tree (ref_run (OMovedir s d c pt) t) = Some t' ->
+  preserved t t' (OMovedir s d c pt)
+            (match rs_res (ref_run (OMovedir s d c pt) t) with ROk _ => true | _ => false end) = true.
+Proof.
+  intros s d c pt a b t t' W Ra Rb Lb.
+  change (match rs_res (ref_run (OMovedir s d c pt) t) with ROk _ => true | _ => false end)
+    with (ok_res (rs_res (ref_run (OMovedir s d c pt) t))).
+  cbn [ref_run]. unfold with2. rewrite Ra, Rb. unfold ref_dirtransfer.
+  pose proof W as [_ Wn].
+  destruct (path_eqb a b) eqn:E; cbn [andb].
+  { simpl. intro H. inversion H; subst t'. unfold preserved. rewrite kept_same by assumption.
+    simpl. rewrite (rp_inl _ _ Ra), (rp_inl _ _ Rb), E. reflexivity. }
+  destruct (dirtransfer_errors t a b c true) as [|e0 es] eqn:DE.
+  2:{ simpl. intro H. inversion H; subst. now apply preserved_noop. }
+  destruct (list_prefix b a) eqn:Pba; [discriminate|].
+  rewrite Lb. destruct (lookup t a) as [src|] eqn:La.
+  2:{ simpl. intro H. inversion H; subst. now apply preserved_noop. }
+  simpl. intro H. inversion H; subst t'. clear H.
+  (* consequences of the empty error set *)
+  destruct (list_snoc_case b) as [->|[dd [dc ->]]]; [discriminate Lb|].
+  rewrite dirtransfer_errors_snoc in DE.
+  apply app_eq_nil in DE as [D1 DE]. apply app_eq_nil in DE as [_ D3].
+  destruct (list_prefix a (dd ++ [dc])) eqn:Pab; [discriminate|]. clear D1.
+  assert (Ld : exists ents m, lookup t dd = Some (Dir ents m)).
+  { pview t dd dc; rewrite Hsc in D3; try congruence;
+      try (apply app_eq_nil in D3 as [_ D3]; rewrite ?Hs in D3; discriminate).
+    eauto. }
+  destruct Ld as (ents & m & Ld).
+  assert (Pb : lookup (put t (dd ++ [dc]) src) (dd ++ [dc]) = Some src)
+    by (eapply lookup_put_same; eauto).
+  pose proof (wf_lookup _ _ _ Wn La) as Wsrc.
+  unfold preserved. apply andb_true_iff. split.
+  - apply all_files_kept_intro; [assumption|]. intros p d0 m0 Hp.
+    simpl. rewrite (rp_inl _ _ Ra), (rp_inl _ _ Rb).
+    destruct (list_prefix a p) eqn:Pap; [now left|]. right.
+    assert (p <> dd ++ [dc]) by congruence.
+    eapply has_file_lookup. apply lookup_del_file; [|exact Pap].
+    apply lookup_put_file; eauto.
+  - simpl. rewrite (rp_inl _ _ Ra), (rp_inl _ _ Rb), E. simpl.
+    unfold sub_files. rewrite La. apply forallb_forall. intros [q dq] Hin. simpl.
+    destruct (files_of_lookup src Wsrc q dq Hin) as [mq Hq].
+    eapply has_file_lookup. apply lookup_del_file.
+    + rewrite lookup_app, Pb. exact Hq.
+    + destruct (list_prefix a ((dd ++ [dc]) ++ q)) eqn:X; [|reflexivity].
+      apply prefix_app_cases in X as [X|X]; congruence.
+Qed.
+
+(* ---- and on the MemoryFS model (fast path of MemoryFS.movedir), by replaying the script of
+   movedir_fast (FS/RefineProofs.v) against strict agreement ---- *)
+Lemma sfin_dt_err s cs cd create pt e :
+  wf s -> path_eqb cs cd = false ->
+  existsb (ecls_eqb e) (dirtransfer_errors s cs cd create true) = true ->
+  sagree (s, @Err value e) (ref_dirtransfer s cs cd create pt true)
+  /\ wf (fst (s, @Err value e)).
+Proof.
+  intros W E H. unfold ref_dirtransfer. rewrite E. cbn [andb].
+  destruct (dirtransfer_errors s cs cd create true) as [|x l]; [discriminate|].
+  unfold fail, same. now apply sfin_err.
+Qed.
+
+Lemma smovedir_fast src dst create pt s cs cd :
+  wf s -> rpath src = inl cs -> rpath dst = inl cd -> lookup s cd = None ->
+  sstep_ok (OMovedir src dst create pt) s.
+Proof.
+  intros W R1 R2 Lcd. unfold sstep_ok. cbn [mem_run ref_run]. unfold with2. rewrite R1, R2.
+  pose proof (rpath_good _ _ R1) as G1. pose proof (rpath_good _ _ R2) as G2.
+  destruct (list_snoc_case cd) as [->|[dd [dc ->]]]; [discriminate Lcd|].
+  destruct (good_snoc _ _ G2) as [Gdd Gdc].
+  unfold mem_movedir. mstep. rewrite (validate_inl _ _ s R1). mstep.
+  rewrite (validate_inl _ _ s R2). mstep.
+  rewrite (psplit_snoc true dd dc Gdd Gdc).
+  rewrite (to_path_eqb cs (dd ++ [dc]) G1 G2).
+  rewrite (isbase_nf true cs true (dd ++ [dc]) G1 G2), <- list_prefix_cprefix.
+  destruct (list_snoc_case cs) as [->|[sd [sc ->]]].
+  { rewrite to_path_root, psplit_root. mstep.
+    assert (E : path_eqb [] (dd ++ [dc]) = false) by (destruct dd; reflexivity).
+    rewrite E. cbn [list_prefix]. mstep.
+    apply sfin_dt_err; [assumption|assumption|]. rewrite dirtransfer_errors_snoc. reflexivity. }
+  destruct (good_snoc _ _ G1) as [Gsd Gsc].
+  rewrite (psplit_snoc true sd sc Gsd Gsc). mstep.
+  destruct (path_eqb (sd ++ [sc]) (dd ++ [dc])) eqn:E; mstep.
+  { unfold ref_dirtransfer. rewrite E. cbn [andb]. sfin_ok. }
+  destruct (list_prefix (sd ++ [sc]) (dd ++ [dc])) eqn:P; mstep.
+  { apply sfin_dt_err; [assumption|assumption|]. rewrite dirtransfer_errors_snoc, P. reflexivity. }
+  rewrite get_dir_entry_nf by assumption. mstep.
+  pview s sd sc; rewrite ?Hl, ?Ha; mstep;
+    try (apply sfin_dt_err; [assumption|assumption|];
+         rewrite dirtransfer_errors_snoc, P, Hsc; reflexivity).
+  destruct n as [sdata smt|e3 m3]; cbn [is_dir] in Hsc; mstep;
+    try (apply sfin_dt_err; [assumption|assumption|];
+         rewrite dirtransfer_errors_snoc, P, Hsc; reflexivity).
+  rewrite get_dir_entry_nf by assumption. mstep. rewrite Lcd. mstep.
+  rewrite get_dir_entry_nf by assumption. mstep.
+  pview2 s dd dc; rewrite ?Dl; mstep;
+    try (apply sfin_dt_err; [assumption|assumption|];
+         rewrite dirtransfer_errors_snoc, P, Hsc, Dsc, Ds; destruct create; reflexivity).
+  2:{ congruence. }
+  destruct create; cbn [negb]; mstep.
+  2:{ apply sfin_dt_err; [assumption|assumption|].
+      rewrite dirtransfer_errors_snoc, P, Hsc, Dsc, Ds. reflexivity. }
+  rewrite !iteratepath_nf by assumption. mstep.
+  assert (Wn : wf (del (put s (dd ++ [dc]) (Dir e3 m3)) (sd ++ [sc]))).
+  { apply wf_del_any. apply wf_put_ne; auto using snoc_ne'.
+    destruct W as [_ W]. eapply wf_lookup; eauto. }
+  unfold ref_dirtransfer. rewrite E. cbn [andb].
+  rewrite dirtransfer_errors_snoc, P, Hsc, Dsc, Ds. cbn [app parent_errors].
+  destruct (list_prefix (dd ++ [dc]) (sd ++ [sc])) eqn:X.
+  - exfalso. rewrite list_prefix_cprefix in X. apply cprefix_app in X as [r Er].
+    rewrite Er, lookup_app, Lcd in Hlc. discriminate.
+  - rewrite Hlc, Lcd. apply sfin_ok; [exact Wn|reflexivity].
+Qed.
+
+Lemma dt_any t a b c pt mv :
+  rs_res (ref_dirtransfer t a b c pt mv) = RAny -> rs_tree (ref_dirtransfer t a b c pt mv) = None.
+Proof.
+  unfold ref_dirtransfer.
+  repeat match goal with |- context [match ?x with _ => _ end] => destruct x end;
+    simpl; congruence.
+Qed.
+
+Theorem mem_preserved_movedir_fresh : forall src dst create pt s cs cd,
+  wf s -> rpath src = inl cs -> rpath dst = inl cd -> lookup s cd = None ->
+  preserved s (fst (mem_run (OMovedir src dst create pt) s)) (OMovedir src dst create pt)
+            (is_ok (snd (mem_run (OMovedir src dst create pt) s))) = true.
+Proof.
+  intros src dst create pt s cs cd W R1 R2 L.
+  destruct (smovedir_fast src dst create pt s cs cd W R1 R2 L) as [[A T] _].
+  pose proof (ref_preserved_movedir_fresh src dst create pt cs cd s _ W R1 R2 L T) as P.
+  replace (is_ok (snd (mem_run (OMovedir src dst create pt) s)))
+    with (match rs_res (ref_run (OMovedir src dst create pt) s) with ROk _ => true | _ => false end);
+    [exact P|].
+  assert (NA : rs_res (ref_run (OMovedir src dst create pt) s) <> RAny).
+  { intro X. cbn [ref_run] in X, T. unfold with2 in X, T. rewrite R1, R2 in X, T.
+    apply dt_any in X. congruence. }
+  unfold res_agree in A.
+  destruct (snd (mem_run (OMovedir src dst create pt) s)) as [v|e|k];
+    destruct (rs_res (ref_run (OMovedir src dst create pt) s));
+    try discriminate A; try reflexivity; try congruence;
+    destruct k; discriminate A.
+Qed.
